@@ -39,7 +39,14 @@ def jobs(tier):
         add(k=1, L=2, fast=False, table=False, vt=0, max_steps=4, real_arith=True)
         add(k=2, L=2, fast=False, table=False, vt=0, max_steps=3)
         add(k=2, L=3, fast=True, table=False, vt=0, max_steps=3)
+        for g_, fast in (("complete-1", False), ("complete-1", True), ("MIXED1", False), ("GC2", True)):
+            add(side="wide", graphname=g_, L=64, fast=fast, pattern="max", table=False, vt=0, k=1, real_arith=True)
+        add(side="wide", graphname="MIXED1", L=65, fast=False, pattern="mix", table=False, vt=2, k=1, real_arith=True)
     else:
+        for g_, fast in (("complete-1", False), ("complete-1", True), ("MIXED1", False), ("GC2", True), ("GC2", False)):
+            for L in (54, 64, 65, 128):
+                for pat in ("max", "mix"):
+                    add(side="wide", graphname=g_, L=L, fast=fast, pattern=pat, table=(L == 65), vt=0 if L != 54 else 3, k=1, real_arith=True)
         for L in range(0, 7):
             add(k=1, L=L, fast=False, table=False, vt=0, max_steps=L + 3)
             add(k=1, L=L, fast=True, table=False, vt=0, max_steps=L + 3)
@@ -61,13 +68,72 @@ def jobs(tier):
 
 def bounds(tier):
     js = jobs(tier)
-    return {"orders_k": sorted(set(j["k"] for j in js)), "max_message_bits": max(j["L"] for j in js),
+    wide = [j for j in js if j.get("side") == "wide"]
+    js = [j for j in js if j.get("side") != "wide"]
+    return {"wide messages": "L in %s bits as numpy arrays on concrete graphs, 5 free bits enumerated, real string arithmetic (machine-number regimes 2^53 / 2^63)" % sorted(set(j["L"] for j in wide)),
+            "orders_k": sorted(set(j["k"] for j in js)), "max_message_bits": max(j["L"] for j in js),
             "graphs": "all 2^(4^(k+1)) arc subsets per order (symbolic)", "start": "all 4^k vertices (symbolic)",
             "tables": "all (4!)^(4^k) permutation tables where table=True", "check_lengths": sorted(set(j["vt"] for j in js)),
             "max_steps": max(j["max_steps"] for j in js), "outside": "k >= 3, longer messages, strands longer than max_steps"}
 
 
+WIDE_GRAPHS = {"complete-1": [[0, 1, 2, 3]] * 4}
+
+
+def body_wide(e, L, cfg):
+    """wide messages (beyond 2^53 / 2^63) as numpy arrays on concrete graphs: a window of free bits (first 2, last 3) is enumerated
+    exhaustively by the solver, the rest follows a fixed pattern; the path then runs the REAL string arithmetic on concrete machine
+    numbers.  Round trip and equality with an independent reference coder."""
+    from symx import scenarios, replay_runner
+    rows = WIDE_GRAPHS.get(cfg["graphname"]) or {"MIXED1": scenarios.MIXED1, "GC2": scenarios.GC2}[cfg["graphname"]]
+    n = cfg["L"]
+    free = set([0, 1, n - 3, n - 2, n - 1])
+    bits = []
+    for i in range(n):
+        if i in free:
+            x = z3.Int("m_%d" % i)
+            e.assume(z3.And(x >= 0, x <= 1))
+            bits.append(e.concretize(x))
+        else:
+            bits.append(1 if cfg["pattern"] == "max" else (i * 5 + 1) % 3 % 2)
+    live = [v for v in range(len(rows)) if any(x >= 0 for x in rows[v])]
+    sv = z3.Int("start")
+    e.assume(z3.Or([sv == v for v in live]))
+    start = e.concretize(sv)
+    table = [[(v + j + 1) % 4 for j in range(4)] for v in range(len(rows))] if cfg.get("table") else None
+    from symx import symnp
+    acc, msg = symnp.array(rows), symnp.array(bits, dtype=int) if bits else symnp.array([], dtype=int)
+    sh = symnp.array(table) if table else None
+    cex = {"kind": "coding", "acc": [list(r) for r in rows], "bits": bits, "start": start, "fast": bool(cfg["fast"]), "vt": cfg.get("vt", 0), "table": table, "check": "all"}
+    ref = replay_runner.ref_encode(rows, start, bits, bool(cfg["fast"]), table)
+    try:
+        r = L.encode(msg, acc, start, is_faster=bool(cfg["fast"]), vt_length=cfg.get("vt", 0), shuffles=sh)
+    except core.Abort:
+        raise
+    except Exception as ex:
+        if ref is None:
+            return {"status": "skip", "why": "precondition false"}
+        return {"status": "viol", "why": "encode raised %s: %s" % (type(ex).__name__, ex), "cex": cex}
+    strand, chk = (r if cfg.get("vt", 0) > 0 else (r, None))
+    if ref is None:
+        return {"status": "skip", "why": "precondition false"}
+    if str(strand) != ref:
+        return {"status": "viol", "why": "strand differs from the reference coder on a wide message", "cex": cex}
+    try:
+        out = L.decode(strand, n, acc, start, is_faster=bool(cfg["fast"]), vt_check=chk, shuffles=sh)
+    except core.Abort:
+        raise
+    except Exception as ex:
+        return {"status": "viol", "why": "decode raised %s: %s" % (type(ex).__name__, ex), "cex": cex}
+    got = [core.concrete_int(x) if core.is_sym(x) else int(x) for x in out.fix_len().elems()]
+    if got != bits:
+        return {"status": "viol", "why": "decode(encode(m)) != m on a wide message", "cex": cex}
+    return {"status": "ok", "sample": {"wide": n, "graph": cfg["graphname"], "fast": cfg["fast"], "strand_length": len(ref)}}
+
+
 def body(e, L, cfg):
+    if cfg.get("side") == "wide":
+        return body_wide(e, L, cfg)
     g, bs, start, tab = coding.universe(e, cfg)
     kind, val = coding.run_encode(e, L, cfg, g, bs, start, tab)
     if kind == "skip":
